@@ -108,6 +108,11 @@ def _real_obs(check, params, inputs):
     except OracleFailure as ex:
         return "oracle", str(ex)[:500]
     except Exception as ex:  # noqa
+        import traceback as _tb
+        frames = _tb.extract_tb(ex.__traceback__)
+        if not any("/cooler/" in fr.filename and "/verif/" not in fr.filename for fr in frames):
+            # raised by the harness's own real-side code, never reached cooler: not an observation about cooler
+            return "harness", f"{type(ex).__name__}: {str(ex)[:200]} ({frames[-1].filename}:{frames[-1].lineno})" if frames else repr(ex)
         return "raises", f"{type(ex).__name__}: {str(ex)[:200]}"
     finally:
         try:
@@ -172,6 +177,10 @@ def run_job(job):
                 # the symbolic run of this path returned, so this is a slow machine, not a hang: inconclusive, never a violation
                 if len(out["divergences"]) < 5:
                     out["divergences"].append(dict(inputs=inputs, why="real-stack validation run timed out: " + robs))
+                return
+            if kind == "harness":
+                if len(out["divergences"]) < 5:
+                    out["divergences"].append(dict(inputs=inputs, why="harness error on the real side: " + robs))
                 return
             if kind == "oracle":
                 CTX.violations.append(dict(msg="real stack: " + robs, inputs=inputs, notes=[], path=[], confirmed=True))
